@@ -4,7 +4,10 @@
    parse o print = id the text compiles back to the same instructions. *)
 From Coq Require Import ZArith List Bool Arith Lia.
 Import ListNotations.
+From Coq Require String.
+Import String.StringSyntax.
 From SqfVerif Require Import Syntax.SyntaxDefs Syntax.ParsePrint Syntax.LexProofs Syntax.CompileProofs Syntax.Reading.
+From SqfVerif Require Syntax.ParseMono.
 
 (* ------------------------------------------------------------------ rendered pieces lex back *)
 Fixpoint pieces_ok (ps:list piece) : Prop :=
@@ -242,7 +245,7 @@ Proof.
       (* the walk over the reversed block *)
       assert (Hw: forall sr acc (g:nat),
                 (forall s, In s sr -> (size_stmt s <= n)%nat /\ (2 * isize_list (postorder_stmt s) <= f)%nat) ->
-                (2 * length sr <= g)%nat ->
+                (2 * length sr <= S g)%nat ->
                 walk_with (recon show_lit f 0%nat false) g
                   (match sr with [] => [] | s :: r => rev (postorder_stmt s) ++ flat_map (fun x => IEndStatement :: rev (postorder_stmt x)) r end) acc
                 = Some (map rp_stmt (rev sr) ++ acc)).
@@ -264,33 +267,33 @@ Proof.
                                   clear -Hp; destruct (postorder_stmt s) as [|i l]; [cbn in Hp; lia|]; unfold isize_list; cbn [fold_right]; pose proof (isize_pos i); lia).
             specialize (IHsr (rp_stmt s :: acc) g).
             cbn [rev]. rewrite map_app. cbn [map]. rewrite <- app_assoc. cbn [app].
-            rewrite <- IHsr; [reflexivity| |cbn [length] in *; lia].
+            apply IHsr; [|cbn [length] in *; lia].
             intros; apply Hin; right; assumption. }
       assert (Hrev: rev (postorder_block ss) =
                     match rev ss with [] => [] | s :: r => rev (postorder_stmt s) ++ flat_map (fun x => IEndStatement :: rev (postorder_stmt x)) r end).
       { unfold postorder_block. clear. induction ss as [|s ss IH]; [reflexivity|].
         destruct ss as [|s2 ss].
-        - cbn. rewrite app_nil_r. reflexivity.
+        - cbn. rewrite !app_nil_r. reflexivity.
         - change (join [IEndStatement] (map postorder_stmt (s :: s2 :: ss)))
             with (postorder_stmt s ++ IEndStatement :: join [IEndStatement] (map postorder_stmt (s2 :: ss))).
           rewrite rev_app_distr. cbn [rev]. rewrite IH. cbn [rev].
           destruct (rev ss ++ [s2]) as [|x r] eqn:E; [destruct (rev ss); discriminate|].
-          cbn [app]. rewrite <- !app_assoc. cbn [app]. rewrite flat_map_app. cbn [flat_map]. rewrite app_nil_r.
-          rewrite <- app_assoc. reflexivity. }
+          cbn [app]. rewrite flat_map_app. cbn [flat_map]. rewrite app_nil_r.
+          rewrite <- !app_assoc. reflexivity. }
       rewrite Hrev. rewrite (Hw (rev ss) [] (length (postorder_block ss))).
       * rewrite rev_involutive, app_nil_r. reflexivity.
       * intros s Hs. apply in_rev in Hs. pose proof (size_stmt_in s ss Hs). split; [lia|].
         assert (isize_list (postorder_stmt s) <= isize_list (postorder_block ss))%nat; [|lia].
         clear -Hs. unfold postorder_block. induction ss as [|x ss IH]; [destruct Hs|].
         destruct ss as [|x2 ss].
-        -- destruct Hs as [->|[]]. cbn. rewrite app_nil_r. lia.
+        -- destruct Hs as [->|[]]. cbn [map join flat_map]. rewrite app_nil_r. lia.
         -- change (join [IEndStatement] (map postorder_stmt (x :: x2 :: ss)))
              with (postorder_stmt x ++ IEndStatement :: join [IEndStatement] (map postorder_stmt (x2 :: ss))).
            rewrite isize_list_app. destruct Hs as [->|Hs]; [lia|]. specialize (IH Hs).
            change (isize_list (IEndStatement :: ?l)) with (S (isize_list l)). cbn [isize_list fold_right isize] in *. lia.
       * rewrite rev_length. clear. unfold postorder_block. induction ss as [|x ss IH]; [cbn; lia|].
         destruct ss as [|x2 ss].
-        -- cbn. rewrite app_nil_r. pose proof (postorder_stmt_nonempty x). lia.
+        -- cbn [map join flat_map length]. rewrite app_nil_r. pose proof (postorder_stmt_nonempty x). lia.
         -- change (join [IEndStatement] (map postorder_stmt (x :: x2 :: ss)))
              with (postorder_stmt x ++ IEndStatement :: join [IEndStatement] (map postorder_stmt (x2 :: ss))).
            rewrite app_length. cbn [length] in *.
@@ -305,3 +308,722 @@ Proof.
       rewrite rev_app_distr. cbn [rev app]. rewrite recon_S. rewrite IHt by lia. reflexivity.
 Qed.
 End RP.
+
+(* ------------------------------------------------------------------ the printed text as a rendering of a tree *)
+Section RImpl.
+Variable show_lit : lit -> lit.
+Notation I := (fun t:rtok => t).
+Notation spl := (show_pval_lit show_lit).
+
+(* printing keeps the kind of a literal: numbers (decimal or hexadecimal) print as decimal numbers,
+   strings as strings, booleans as themselves *)
+Definition show_kind_ok : Prop := forall l,
+  match l with
+  | LNum _ | LHex _ => exists s, show_lit l = LNum s
+  | LStr _ => exists s, show_lit l = LStr s
+  | LTrue _ => exists s, show_lit l = LTrue s
+  | LFalse _ => exists s, show_lit l = LFalse s
+  end.
+
+(* the tree whose documented rendering is what str prints: literals as printed, names in lower case, folded
+   signs resolved, and the parentheses the printer adds around a binary right-hand side of an assignment *)
+Definition rhs (e:tree) : tree := if is_bin e then Par e else e.
+Fixpoint rimpl (t:tree) : tree :=
+  match t with
+  | Lit l => Lit (show_lit l)
+  | Var s => Var s
+  | Nul s => Nul (lower s)
+  | Un s a =>
+    match unsigned_num a with
+    | Some l => if text_eqb s sym_minus then Un sym_minus (Lit (show_lit l))
+                else if text_eqb s sym_plus then Lit (show_lit l)
+                else Un (lower s) (rimpl a)
+    | None => Un (lower s) (rimpl a)
+    end
+  | Bin k s l r => Bin k (lower s) (rimpl l) (rimpl r)
+  | Arr es => Arr (map rimpl es)
+  | Code ss => Code (map rimpl_stmt ss)
+  | Par a => rimpl a
+  end
+with rimpl_stmt (s:stmt) : stmt :=
+  match s with
+  | SExpr e => SExpr (rimpl e)
+  | SAssign x e => SAssign x (rhs (rimpl e))
+  | SLocal x e => SLocal x (rhs (rimpl e))
+  end.
+Lemma rimpl_stmt_unfold s : rimpl_stmt s = match s with
+  | SExpr e => SExpr (rimpl e) | SAssign x e => SAssign x (rhs (rimpl e)) | SLocal x e => SLocal x (rhs (rimpl e)) end.
+Proof. destruct s; reflexivity. Qed.
+
+Definition klev (parent:nat) (left:bool) : nat := if left then (parent - 1)%nat else parent.
+
+Lemma toks_app a b : pieces_toks (a ++ b) = pieces_toks a ++ pieces_toks b.
+Proof. unfold pieces_toks. apply flat_map_app. Qed.
+Lemma toks_join_comma els : pieces_toks (join [PT RComma; sp] els) = join [RComma] (map pieces_toks els).
+Proof.
+  destruct els as [|x r]; [reflexivity|]. cbn [join map]. rewrite toks_app. f_equal.
+  induction r as [|y r IH]; [reflexivity|]. cbn [flat_map map]. rewrite !toks_app, IH. reflexivity.
+Qed.
+Lemma toks_join_semi els : pieces_toks (join [PT RSemi; sp] els) = join [RSemi] (map pieces_toks els).
+Proof.
+  destruct els as [|x r]; [reflexivity|]. cbn [join map]. rewrite toks_app. f_equal.
+  induction r as [|y r IH]; [reflexivity|]. cbn [flat_map map]. rewrite !toks_app, IH. reflexivity.
+Qed.
+
+Definition prawI (t:tree) : list rtok :=
+  match t with
+  | Lit l => [raw_of_lit l]
+  | Var s => [RIdent s]
+  | Nul s => [raw_of_name s]
+  | Un s a => raw_of_name s :: pr I layout_min NLEV a
+  | Bin j s l r => pr I layout_min j l ++ raw_of_name s :: pr I layout_min (S j) r
+  | Arr es => RSquareO :: join [RComma] (map (pr I layout_min 0%nat) es) ++ [RSquareC]
+  | Code ss => RCurlyO :: pr_block I layout_min ss ++ [RCurlyC]
+  | Par a => RRoundO :: pr I layout_min 0%nat a ++ [RRoundC]
+  end.
+Lemma prI_unfold k t : pr I layout_min k t = if (k <=? lvl t)%nat then prawI t else RRoundO :: prawI t ++ [RRoundC].
+Proof. destruct t; reflexivity. Qed.
+Lemma prI_stmt_unfold s : pr_stmt I layout_min s = match s with
+  | SExpr e => pr I layout_min 0%nat e
+  | SAssign x e => pr I layout_min NLEV x ++ REqual :: pr I layout_min 0%nat e
+  | SLocal x e => RPrivate kw_private :: RIdent x :: REqual :: pr I layout_min 0%nat e
+  end.
+Proof. destruct s; reflexivity. Qed.
+
+(* levels of binary nodes are below NLEV everywhere (part of well-formedness) *)
+Fixpoint levels_ok (t:tree) : bool :=
+  match t with
+  | Lit _ | Var _ | Nul _ => true
+  | Un _ a => levels_ok a
+  | Bin k _ l r => (k <? NLEV)%nat && levels_ok l && levels_ok r
+  | Arr es => forallb levels_ok es
+  | Code ss => forallb levels_ok_stmt ss
+  | Par a => levels_ok a
+  end
+with levels_ok_stmt (s:stmt) : bool :=
+  match s with
+  | SExpr e => levels_ok e
+  | SAssign x e => (match x with Var _ => true | _ => false end) && levels_ok e
+  | SLocal _ e => levels_ok e
+  end.
+Lemma levels_ok_stmt_unfold s : levels_ok_stmt s = match s with
+  | SExpr e => levels_ok e
+  | SAssign x e => (match x with Var _ => true | _ => false end) && levels_ok e
+  | SLocal _ e => levels_ok e end.
+Proof. destruct s; reflexivity. Qed.
+
+Lemma rhs_print e : (is_bin e = true -> (lvl e < NLEV)%nat) -> pr I layout_min 0%nat (rhs e) = pr I layout_min NLEV e.
+Proof.
+  intros H. unfold rhs. destruct e; cbn [is_bin]; try reflexivity.
+  specialize (H eq_refl). cbn [lvl] in H.
+  rewrite (prI_unfold NLEV). cbn [lvl]. rewrite (prI_unfold 0%nat (Par _)). cbn [lvl prawI].
+  change (0 <=? NLEV)%nat with true. cbv iota.
+  destruct (Nat.leb_spec NLEV k); [lia|].
+  rewrite prI_unfold. cbn [lvl]. destruct (Nat.leb_spec 0 k); [reflexivity|lia].
+Qed.
+Lemma rimpl_top t : levels_ok t = true -> is_bin (rimpl t) = true -> (lvl (rimpl t) < NLEV)%nat.
+Proof.
+  induction t; cbn [rimpl levels_ok is_bin lvl]; intros H Hb; try discriminate.
+  - destruct (unsigned_num t); [destruct (text_eqb s sym_minus); [discriminate|destruct (text_eqb s sym_plus); discriminate]|discriminate].
+  - apply andb_prop in H. destruct H as [H _]. apply andb_prop in H. destruct H as [H _]. apply Nat.ltb_lt in H. exact H.
+  - auto.
+Qed.
+
+Lemma raw_minus : raw_of_name sym_minus = ROp sym_minus. Proof. reflexivity. Qed.
+
+Theorem rp_toks_main : forall n,
+  (forall t, (size t <= n)%nat -> levels_ok t = true -> forall parent left, (klev parent left <= NLEV)%nat ->
+     pieces_toks (rp show_lit parent left t) = pr I layout_min (klev parent left) (rimpl t)) /\
+  (forall s, (size_stmt s <= n)%nat -> levels_ok_stmt s = true ->
+     pieces_toks (rp_stmt show_lit s) = pr_stmt I layout_min (rimpl_stmt s)).
+Proof.
+  induction n as [|n [IHt IHs]].
+  { split; intros x Hsz; destruct x; cbn in Hsz; lia. }
+  split.
+  - intros t Hsz Hl parent left HK. rewrite prI_unfold.
+    destruct t as [l|v|nm|s a|j s l r|es|ss|a].
+    + cbn [rp rimpl lvl prawI]. destruct (Nat.leb_spec (klev parent left) NLEV); [reflexivity|lia].
+    + cbn [rp rimpl lvl prawI]. destruct (Nat.leb_spec (klev parent left) NLEV); [reflexivity|lia].
+    + cbn [rp rimpl lvl prawI]. destruct (Nat.leb_spec (klev parent left) NLEV); [reflexivity|lia].
+    + cbn [size] in Hsz. cbn [levels_ok] in Hl.
+      assert (Hgen: pieces_toks (PT (raw_of_name (lower s)) :: sp :: rp show_lit 10%nat false a)
+                    = (if (klev parent left <=? lvl (Un (lower s) (rimpl a)))%nat then prawI (Un (lower s) (rimpl a))
+                       else RRoundO :: prawI (Un (lower s) (rimpl a)) ++ [RRoundC])).
+      { cbn [lvl prawI]. destruct (Nat.leb_spec (klev parent left) NLEV); [|lia].
+        cbn [pieces_toks flat_map app]. f_equal. fold (pieces_toks (rp show_lit 10%nat false a)).
+        rewrite (IHt a ltac:(lia) Hl 10%nat false) by (cbn; unfold NLEV; lia). reflexivity. }
+      cbn [rp rimpl]. destruct (unsigned_num a) as [l|]; [|exact Hgen].
+      destruct (text_eqb s sym_minus).
+      * cbn [lvl prawI]. destruct (Nat.leb_spec (klev parent left) NLEV); [|lia].
+        rewrite raw_minus. rewrite prI_unfold. cbn [lvl prawI]. change (NLEV <=? NLEV)%nat with true. reflexivity.
+      * destruct (text_eqb s sym_plus); [|exact Hgen].
+        cbn [lvl prawI]. destruct (Nat.leb_spec (klev parent left) NLEV); [reflexivity|lia].
+    + cbn [size] in Hsz. cbn [levels_ok] in Hl. apply andb_prop in Hl. destruct Hl as [Hl Hr]. apply andb_prop in Hl. destruct Hl as [Hj Hl].
+      apply Nat.ltb_lt in Hj.
+      cbn [rp rimpl lvl prawI].
+      assert (Hbody: pieces_toks (rp show_lit (S j) true l ++ sp :: PT (raw_of_name (lower s)) :: sp :: rp show_lit (S j) false r)
+                     = pr I layout_min j (rimpl l) ++ raw_of_name (lower s) :: pr I layout_min (S j) (rimpl r)).
+      { rewrite toks_app. cbn [pieces_toks flat_map app]. fold (pieces_toks (rp show_lit (S j) false r)).
+        rewrite (IHt l ltac:(lia) Hl (S j) true) by (cbn; lia).
+        rewrite (IHt r ltac:(lia) Hr (S j) false) by (cbn; lia).
+        cbn [klev]. replace (S j - 1)%nat with j by lia. reflexivity. }
+      assert (Hc: (if left then (S j <? parent)%nat else (S j <=? parent)%nat) = negb (klev parent left <=? j)%nat).
+      { unfold klev. destruct left.
+        - destruct (Nat.ltb_spec (S j) parent), (Nat.leb_spec (parent - 1) j); cbn; try reflexivity; lia.
+        - destruct (Nat.leb_spec (S j) parent), (Nat.leb_spec parent j); cbn; try reflexivity; lia. }
+      rewrite Hc. destruct (klev parent left <=? j)%nat; cbn [negb].
+      * exact Hbody.
+      * cbn [pieces_toks flat_map app]. f_equal. fold (pieces_toks ((rp show_lit (S j) true l ++ sp :: PT (raw_of_name (lower s)) :: sp :: rp show_lit (S j) false r) ++ [PT RRoundC])).
+        rewrite toks_app, Hbody. reflexivity.
+    + change (size (Arr es)) with (S (fold_right (fun e n => (size e + n)%nat) 0%nat es)) in Hsz.
+      cbn [levels_ok] in Hl. cbn [rp rimpl lvl prawI]. destruct (Nat.leb_spec (klev parent left) NLEV); [|lia].
+      cbn [pieces_toks flat_map app]. f_equal.
+      fold (pieces_toks (join [PT RComma; sp] (map (rp show_lit 0%nat false) es) ++ [PT RSquareC])).
+      rewrite toks_app, toks_join_comma. cbn [pieces_toks flat_map app]. f_equal. f_equal.
+      rewrite !map_map. apply map_ext_in. intros e He. pose proof (size_in e es He).
+      rewrite forallb_forall in Hl. apply (IHt e ltac:(lia) (Hl e He) 0%nat false). cbn. lia.
+    + change (size (Code ss)) with (S (fold_right (fun s n => (size_stmt s + n)%nat) 0%nat ss)) in Hsz.
+      change (levels_ok (Code ss)) with (forallb levels_ok_stmt ss) in Hl.
+      change (rp show_lit parent left (Code ss)) with (rp_block show_lit ss).
+      change (rimpl (Code ss)) with (Code (map rimpl_stmt ss)).
+      cbn [lvl prawI]. destruct (Nat.leb_spec (klev parent left) NLEV); [|lia].
+      unfold rp_block, pr_block. cbn [lay_lead lay_trail layout_min seps map app].
+      change (pieces_toks (PT RCurlyO :: sp :: join [PT RSemi; sp] (map (rp_stmt show_lit) ss) ++ [sp; PT RCurlyC]))
+        with (RCurlyO :: pieces_toks (join [PT RSemi; sp] (map (rp_stmt show_lit) ss) ++ [sp; PT RCurlyC])).
+      f_equal. rewrite toks_app, toks_join_semi. rewrite app_nil_r.
+      change (pieces_toks [sp; PT RCurlyC]) with [RCurlyC]. f_equal.
+      unfold mid. cbn [lay_mid_first lay_mid_more layout_min seps map rsep]. f_equal.
+      rewrite !map_map. apply map_ext_in. intros s Hs. pose proof (size_stmt_in s ss Hs).
+      rewrite forallb_forall in Hl. apply (IHs s ltac:(lia) (Hl s Hs)).
+    + cbn [size] in Hsz. cbn [levels_ok] in Hl. cbn [rp rimpl]. rewrite <- prI_unfold. apply IHt; auto. lia.
+  - intros s Hsz Hl. rewrite size_stmt_unfold in Hsz. rewrite levels_ok_stmt_unfold in Hl.
+    rewrite rp_stmt_unfold, rimpl_stmt_unfold. destruct s as [e|x e|x e]; rewrite prI_stmt_unfold.
+    + apply (IHt e ltac:(lia) Hl 0%nat false). cbn. lia.
+    + apply andb_prop in Hl. destruct Hl as [Hx Hl]. destruct x as [|v| | | | | |]; try discriminate.
+      cbn [target_name]. rewrite rhs_print by (apply rimpl_top; exact Hl).
+      rewrite prI_unfold. cbn [lvl prawI]. change (NLEV <=? NLEV)%nat with true. cbv iota.
+      change (pieces_toks (PT (RIdent v) :: sp :: PT REqual :: sp :: rp show_lit 10%nat false e))
+        with (RIdent v :: REqual :: pieces_toks (rp show_lit 10%nat false e)).
+      cbn [app]. f_equal. f_equal.
+      apply (IHt e ltac:(lia) Hl 10%nat false). cbn. unfold NLEV. lia.
+    + rewrite rhs_print by (apply rimpl_top; exact Hl).
+      change (pieces_toks (PT (RPrivate kw_private) :: sp :: PT (RIdent x) :: sp :: PT REqual :: sp :: rp show_lit 10%nat false e))
+        with (RPrivate kw_private :: RIdent x :: REqual :: pieces_toks (rp show_lit 10%nat false e)).
+      f_equal. f_equal. f_equal.
+      apply (IHt e ltac:(lia) Hl 10%nat false). cbn. unfold NLEV. lia.
+Qed.
+End RImpl.
+
+(* ------------------------------------------------------------------ the printed pieces lex back: spacing *)
+Fixpoint PO (ps:list piece) (b:text) : Prop :=
+  match ps with
+  | [] => True
+  | PW w :: r => all_ws w /\ PO r b
+  | PT t :: r => tok_ok t /\ follow_ok t (pieces_text r ++ b) /\ PO r b
+  end.
+Definition toks_ok (ps:list piece) : Prop := forall t, In (PT t) ps -> tok_ok t.
+
+Lemma text_app a b : pieces_text (a ++ b) = pieces_text a ++ pieces_text b.
+Proof. unfold pieces_text. apply flat_map_app. Qed.
+Lemma PO_nil ps : PO ps [] -> pieces_ok ps.
+Proof. induction ps as [|[t|w] r IH]; cbn; auto; rewrite ?app_nil_r; tauto. Qed.
+Lemma PO_app a c b : PO a (pieces_text c ++ b) -> PO c b -> PO (a ++ c) b.
+Proof.
+  induction a as [|[t|w] r IH]; cbn [app PO]; auto.
+  - intros (H1 & H2 & H3) Hc. rewrite text_app, <- app_assoc. auto.
+  - intros (H1 & H2) Hc. auto.
+Qed.
+Lemma follow_dstart t b : dstart b -> follow_ok t b.
+Proof. destruct b; cbn; auto. Qed.
+Lemma follow_free t b : free_tok t = true -> follow_ok t b.
+Proof. destruct b; cbn; auto. Qed.
+Lemma toks_ok_app a b : toks_ok (a ++ b) -> toks_ok a /\ toks_ok b.
+Proof. unfold toks_ok. intros H. split; intros t Ht; apply H; apply in_or_app; auto. Qed.
+Lemma toks_ok_cons p a : toks_ok (p :: a) -> toks_ok a.
+Proof. unfold toks_ok. intros H t Ht. apply H. right. exact Ht. Qed.
+Lemma toks_ok_hd t a : toks_ok (PT t :: a) -> tok_ok t.
+Proof. intros H. apply H. left. reflexivity. Qed.
+
+Lemma in_join {A} (x:A) sep l e : In e l -> In x e -> In x (join sep l).
+Proof.
+  destruct l as [|y r]; [intros []|]. cbn [join]. intros [->|He] Hx; apply in_or_app; [left; exact Hx|right].
+  apply in_flat_map. exists e. split; [assumption|]. apply in_or_app. right. exact Hx.
+Qed.
+
+Lemma dstart_sp b : dstart (pieces_text (sp :: b)).
+Proof. reflexivity. Qed.
+
+(* a list of pieces, each of which is fine before a delimiter, joined by `sep sp` where sep is a bracket or
+   separator token, is fine before a delimiter *)
+Lemma PO_join sep (Hfree: free_tok sep = true) (Hok: tok_ok sep) (Hd: dstart (rtok_text sep)) : forall els b, dstart b ->
+  (forall e, In e els -> forall b', dstart b' -> PO e b') -> PO (join [PT sep; sp] els) b.
+Proof.
+  intros els b Hb H. destruct els as [|x r]; [exact I|]. cbn [join].
+  revert x H. induction r as [|y r IH]; intros x H.
+  - cbn [flat_map]. rewrite app_nil_r. apply H; [left; reflexivity|exact Hb].
+  - cbn [flat_map]. apply PO_app.
+    + apply H; [left; reflexivity|]. rewrite text_app. cbn [pieces_text flat_map app].
+      destruct (rtok_text sep) as [|c s'] eqn:E; [reflexivity|]. cbn [app]. exact Hd.
+    + change (([PT sep; sp] ++ y) ++ flat_map (fun y0 => [PT sep; sp] ++ y0) r)
+        with (PT sep :: sp :: (y ++ flat_map (fun y0 => [PT sep; sp] ++ y0) r)).
+      cbn [PO]. split; [exact Hok|]. split; [apply follow_free; exact Hfree|]. split; [reflexivity|].
+      apply (IH y). intros e He. apply H. right. exact He.
+Qed.
+
+Lemma PO_single t b : tok_ok t -> dstart b -> PO [PT t] b.
+Proof. intros H Hb. cbn [PO pieces_text flat_map app]. split; [exact H|]. split; [apply follow_dstart; exact Hb|exact I]. Qed.
+
+Section Spacing.
+Variable show_lit : lit -> lit.
+
+Lemma tok_ok_punct : tok_ok RRoundO /\ tok_ok RRoundC /\ tok_ok RSquareO /\ tok_ok RSquareC /\ tok_ok RCurlyO /\ tok_ok RCurlyC
+  /\ tok_ok RSemi /\ tok_ok RComma /\ tok_ok REqual /\ tok_ok (RPrivate kw_private) /\ tok_ok (ROp sym_minus).
+Proof. repeat split. Qed.
+
+Theorem rp_PO_main : forall n,
+  (forall t, (size t <= n)%nat -> forall parent left b, dstart b -> toks_ok (rp show_lit parent left t) -> PO (rp show_lit parent left t) b) /\
+  (forall s, (size_stmt s <= n)%nat -> forall b, dstart b -> toks_ok (rp_stmt show_lit s) -> PO (rp_stmt show_lit s) b).
+Proof.
+  destruct tok_ok_punct as (KRO & KRC & KSO & KSC & KCO & KCC & KSE & KCM & KEQ & KPR & KMI).
+  induction n as [|n [IHt IHs]].
+  { split; intros x Hsz; destruct x; cbn in Hsz; lia. }
+  split.
+  - intros t Hsz parent left b Hb Hok.
+    destruct t as [l|v|nm|s a|j s l r|es|ss|a].
+    + cbn [rp show_pval_lit app] in *. apply PO_single; [apply (toks_ok_hd _ _ Hok)|exact Hb].
+    + cbn [rp] in *. apply PO_single; [apply (toks_ok_hd _ _ Hok)|exact Hb].
+    + cbn [rp] in *. apply PO_single; [apply (toks_ok_hd _ _ Hok)|exact Hb].
+    + cbn [size] in Hsz.
+      assert (Hgen: toks_ok (PT (raw_of_name (lower s)) :: sp :: rp show_lit 10%nat false a) ->
+                    PO (PT (raw_of_name (lower s)) :: sp :: rp show_lit 10%nat false a) b).
+      { intros Hok'. cbn [PO]. split; [apply (toks_ok_hd _ _ Hok')|]. split; [apply follow_dstart; reflexivity|].
+        split; [reflexivity|]. apply IHt; [lia|exact Hb|]. apply (toks_ok_cons _ _ (toks_ok_cons _ _ Hok')). }
+      cbn [rp] in *. destruct (unsigned_num a) as [l|]; [|apply Hgen; exact Hok].
+      destruct (text_eqb s sym_minus).
+      * cbn [show_pval_lit app] in *. cbn [PO]. split; [exact KMI|]. split; [apply follow_free; reflexivity|].
+        apply PO_single; [apply (toks_ok_hd _ _ (toks_ok_cons _ _ Hok))|exact Hb].
+      * destruct (text_eqb s sym_plus); [|apply Hgen; exact Hok].
+        cbn [show_pval_lit app] in *. apply PO_single; [apply (toks_ok_hd _ _ Hok)|exact Hb].
+    + cbn [size] in Hsz. cbn [rp] in *.
+      assert (Hbody: forall b', dstart b' ->
+                toks_ok (rp show_lit (S j) true l ++ sp :: PT (raw_of_name (lower s)) :: sp :: rp show_lit (S j) false r) ->
+                PO (rp show_lit (S j) true l ++ sp :: PT (raw_of_name (lower s)) :: sp :: rp show_lit (S j) false r) b').
+      { intros b' Hb' Hok'. destruct (toks_ok_app _ _ Hok') as [Hl Hr].
+        apply PO_app.
+        - apply IHt; [lia|reflexivity|exact Hl].
+        - cbn [PO]. split; [reflexivity|]. split; [apply (toks_ok_hd _ _ (toks_ok_cons _ _ Hr))|].
+          split; [apply follow_dstart; reflexivity|]. split; [reflexivity|].
+          apply IHt; [lia|exact Hb'|]. apply (toks_ok_cons _ _ (toks_ok_cons _ _ (toks_ok_cons _ _ Hr))). }
+      destruct (if left then (S j <? parent)%nat else (S j <=? parent)%nat).
+      * cbn [PO]. split; [exact KRO|]. split; [apply follow_free; reflexivity|].
+        apply PO_app.
+        -- apply Hbody; [reflexivity|]. apply (proj1 (toks_ok_app _ _ (toks_ok_cons _ _ Hok))).
+        -- apply PO_single; assumption.
+      * apply Hbody; assumption.
+    + change (size (Arr es)) with (S (fold_right (fun e n => (size e + n)%nat) 0%nat es)) in Hsz.
+      cbn [rp] in *. cbn [PO]. split; [exact KSO|]. split; [apply follow_free; reflexivity|].
+      apply PO_app.
+      * apply PO_join; auto; [reflexivity|reflexivity|].
+        intros e He b' Hb'. apply in_map_iff in He. destruct He as (x & <- & Hx).
+        pose proof (size_in x es Hx). apply IHt; [lia|exact Hb'|].
+        intros t Ht. apply Hok. right. apply in_or_app. left.
+        apply (in_join _ _ _ (rp show_lit 0%nat false x)); [apply in_map; exact Hx|exact Ht].
+      * apply PO_single; assumption.
+    + change (size (Code ss)) with (S (fold_right (fun s n => (size_stmt s + n)%nat) 0%nat ss)) in Hsz.
+      change (rp show_lit parent left (Code ss)) with (rp_block show_lit ss) in *. unfold rp_block in *.
+      cbn [PO]. split; [exact KCO|]. split; [apply follow_free; reflexivity|]. split; [reflexivity|].
+      apply PO_app.
+      * apply PO_join; auto; [reflexivity|reflexivity|].
+        intros e He b' Hb'. apply in_map_iff in He. destruct He as (x & <- & Hx).
+        pose proof (size_stmt_in x ss Hx). apply IHs; [lia|exact Hb'|].
+        intros t Ht. apply Hok. right. right. apply in_or_app. left.
+        apply (in_join _ _ _ (rp_stmt show_lit x)); [apply in_map; exact Hx|exact Ht].
+      * cbn [PO]. split; [reflexivity|]. apply PO_single; assumption.
+    + cbn [size] in Hsz. cbn [rp] in *. apply IHt; [lia|exact Hb|exact Hok].
+  - intros s Hsz b Hb Hok. rewrite size_stmt_unfold in Hsz. rewrite rp_stmt_unfold in *.
+    destruct s as [e|x e|x e].
+    + apply IHt; [lia|exact Hb|exact Hok].
+    + cbn [PO]. split; [apply (toks_ok_hd _ _ Hok)|]. split; [apply follow_dstart; reflexivity|]. split; [reflexivity|].
+      split; [exact KEQ|]. split; [apply follow_dstart; reflexivity|]. split; [reflexivity|].
+      apply IHt; [lia|exact Hb|]. do 4 apply toks_ok_cons in Hok. exact Hok.
+    + cbn [PO]. split; [exact KPR|]. split; [apply follow_dstart; reflexivity|]. split; [reflexivity|].
+      split; [apply (toks_ok_hd _ _ (toks_ok_cons _ _ (toks_ok_cons _ _ Hok)))|]. split; [apply follow_dstart; reflexivity|]. split; [reflexivity|].
+      split; [exact KEQ|]. split; [apply follow_dstart; reflexivity|]. split; [reflexivity|].
+      apply IHt; [lia|exact Hb|]. do 6 apply toks_ok_cons in Hok. exact Hok.
+Qed.
+End Spacing.
+
+(* ------------------------------------------------------------------ names in lower case *)
+Lemma lowc_idem c : lowc (lowc c) = lowc c.
+Proof.
+  unfold lowc. destruct (is_upper c) eqn:U; [|rewrite U; reflexivity].
+  assert (is_upper (c + 32) = false); [|rewrite H; reflexivity].
+  unfold is_upper in *. apply andb_prop in U. destruct U as [U1 U2]. apply Z.leb_le in U1, U2.
+  apply andb_false_iff. right. apply Z.leb_gt. lia.
+Qed.
+Lemma lower_idem s : lower (lower s) = lower s.
+Proof. unfold lower. rewrite map_map. apply map_ext. apply lowc_idem. Qed.
+Lemma ident_start_lowc c : is_ident_start (lowc c) = is_ident_start c.
+Proof.
+  unfold is_ident_start, is_alpha, lowc. destruct (is_upper c) eqn:U; [|rewrite U; reflexivity].
+  unfold is_upper, is_lower in *. apply andb_prop in U. destruct U as [U1 U2]. apply Z.leb_le in U1, U2.
+  cbn [orb]. destruct (Z.leb_spec 65 (c + 32)), (Z.leb_spec (c + 32) 90), (Z.leb_spec 97 (c + 32)), (Z.leb_spec (c + 32) 122),
+    (Z.eqb_spec (c + 32) 95), (Z.eqb_spec c 95); cbn; try reflexivity; lia.
+Qed.
+Lemma raw_of_name_lower s : raw_of_name (lower s) =
+  match raw_of_name s with RPrivate _ => RPrivate (lower s) | RIdent _ => RIdent (lower s) | ROp _ => ROp (lower s) | x => x end.
+Proof.
+  destruct s as [|c s']; [reflexivity|].
+  assert (E: raw_of_name (lower (c :: s')) =
+             if is_ident_start (lowc c) then (if text_eqb (lower (lower (c :: s'))) kw_private then RPrivate (lower (c :: s')) else RIdent (lower (c :: s')))
+             else ROp (lower (c :: s'))) by reflexivity.
+  rewrite E, ident_start_lowc, lower_idem. unfold raw_of_name.
+  destruct (is_ident_start c); [destruct (text_eqb (lower (c :: s')) kw_private)|]; reflexivity.
+Qed.
+Definition retext (t:tok) (s:text) : tok :=
+  match t with TOp c _ => TOp c s | TIdent _ => TIdent s | TPrivate _ => TPrivate s | x => x end.
+Lemma classify_name_lower R b s : classify_name R b (lower s) = retext (classify_name R b s) (lower s).
+Proof.
+  unfold classify_name. rewrite lower_idem.
+  destruct (oi_bin (R (lower s))) as [p|], (oi_un (R (lower s))), (oi_nul (R (lower s)));
+    try (destruct ((1 <=? p)%nat && (p <=? 10)%nat)); destruct b; reflexivity.
+Qed.
+Lemma name_tok_lower R s : name_tok R (lower s) = retext (name_tok R s) (lower s).
+Proof.
+  unfold name_tok. rewrite raw_of_name_lower. unfold raw_of_name. destruct s as [|c s'].
+  - cbn [classify]. apply classify_name_lower.
+  - destruct (is_ident_start c); [destruct (text_eqb (lower (c :: s')) kw_private)|]; cbn [classify retext];
+      try reflexivity; apply classify_name_lower.
+Qed.
+
+Local Open Scope Z_scope.
+Lemma text_eqb_sym1 s k : text_eqb s [k] = match s with [c] => c =? k | _ => false end.
+Proof. destruct s as [|c [|c' s']]; cbn; rewrite ?andb_true_r, ?andb_false_r; reflexivity. Qed.
+Lemma lower_sym_plus s : text_eqb (lower s) sym_plus = text_eqb s sym_plus.
+Proof.
+  unfold sym_plus. rewrite !text_eqb_sym1. destruct s as [|c [|c' s']]; try reflexivity. cbn [lower map].
+  unfold lowc. destruct (is_upper c) eqn:U; [|reflexivity].
+  unfold is_upper in U. apply andb_prop in U. destruct U as [U1 U2]. apply Z.leb_le in U1, U2.
+  destruct (Z.eqb_spec (c + 32) 43), (Z.eqb_spec c 43); try reflexivity; lia.
+Qed.
+Lemma lower_sym_minus s : text_eqb (lower s) sym_minus = text_eqb s sym_minus.
+Proof.
+  unfold sym_minus. rewrite !text_eqb_sym1. destruct s as [|c [|c' s']]; try reflexivity. cbn [lower map].
+  unfold lowc. destruct (is_upper c) eqn:U; [|reflexivity].
+  unfold is_upper in U. apply andb_prop in U. destruct U as [U1 U2]. apply Z.leb_le in U1, U2.
+  destruct (Z.eqb_spec (c + 32) 45), (Z.eqb_spec c 45); try reflexivity; lia.
+Qed.
+Local Close Scope Z_scope.
+
+(* ------------------------------------------------------------------ the printed tree is well formed and compiles to the same code *)
+Fixpoint mapl_i (g:lit -> lit) (i:instr) : instr :=
+  match i with
+  | IPush v => IPush (match v with PLit neg l => PLit neg (g l) | PCode c => PCode (map (mapl_i g) c) end)
+  | x => x
+  end.
+
+Lemma wfb_stmt_unfold R s : wfb_stmt R s = match s with
+  | SExpr e => wfb R e
+  | SAssign x e => (match x with
+                    | Var v => match classify R (RIdent v) with TIdent _ => true | _ => false end
+                    | _ => false end) && wfb R e
+  | SLocal x e => (match classify R (RIdent x) with TIdent _ => true | _ => false end) && wfb R e
+  end.
+Proof. destruct s; reflexivity. Qed.
+
+Section Final.
+Variable show_lit : lit -> lit.
+Hypothesis Hkind : show_kind_ok show_lit.
+Variable R : registry.
+Notation rimpl := (rimpl show_lit).
+Notation rimpl_stmt := (rimpl_stmt show_lit).
+
+Lemma wfb_rhs e : wfb R (rhs e) = wfb R e.
+Proof. unfold rhs. destruct (is_bin e); reflexivity. Qed.
+
+Lemma text_eqb_eq a b : text_eqb a b = true -> a = b.
+Proof.
+  revert b. induction a; destruct b; cbn; intros H; try discriminate; auto.
+  apply andb_prop in H. destruct H as [H1 H2]. apply Z.eqb_eq in H1. subst. f_equal. auto.
+Qed.
+
+Theorem wf_rimpl_main : forall n,
+  (forall t, (size t <= n)%nat -> wfb R t = true -> wfb R (rimpl t) = true) /\
+  (forall s, (size_stmt s <= n)%nat -> wfb_stmt R s = true -> wfb_stmt R (rimpl_stmt s) = true).
+Proof.
+  induction n as [|n [IHt IHs]].
+  { split; intros x Hsz; destruct x; cbn in Hsz; lia. }
+  split.
+  - intros t Hsz Hwf. destruct t as [l|v|nm|s a|j s l r|es|ss|a].
+    + reflexivity.
+    + exact Hwf.
+    + cbn [CodeRoundtrip.rimpl wfb] in *. rewrite name_tok_lower. destruct (name_tok R nm); try discriminate. exact Hwf.
+    + cbn [size] in Hsz. cbn [wfb] in Hwf. apply andb_prop in Hwf. destruct Hwf as [Hu Ha].
+      assert (Hgen: wfb R (Un (lower s) (rimpl a)) = true).
+      { cbn [wfb]. rewrite name_tok_lower. rewrite IHt by (auto; lia). rewrite andb_true_r.
+        destruct (name_tok R s); try discriminate; exact Hu. }
+      cbn [CodeRoundtrip.rimpl]. destruct (unsigned_num a) as [l|]; [|exact Hgen].
+      destruct (text_eqb s sym_minus) eqn:Em.
+      * apply text_eqb_eq in Em. subst. cbn [wfb]. rewrite Hu. reflexivity.
+      * destruct (text_eqb s sym_plus); [reflexivity|exact Hgen].
+    + cbn [size] in Hsz. cbn [wfb] in Hwf. apply andb_prop in Hwf. destruct Hwf as [Hwf Hr]. apply andb_prop in Hwf. destruct Hwf as [Hwf Hl].
+      apply andb_prop in Hwf. destruct Hwf as [Hj Hc].
+      cbn [CodeRoundtrip.rimpl wfb]. rewrite Hj, name_tok_lower, !IHt by (auto; lia). rewrite !andb_true_r. cbn [andb].
+      destruct (name_tok R s); try discriminate; exact Hc.
+    + change (size (Arr es)) with (S (fold_right (fun e n => (size e + n)%nat) 0%nat es)) in Hsz.
+      cbn [wfb CodeRoundtrip.rimpl] in *. rewrite forallb_forall in *. intros x Hx. apply in_map_iff in Hx. destruct Hx as (e & <- & He).
+      pose proof (size_in e es He). apply IHt; [lia|apply Hwf; exact He].
+    + change (size (Code ss)) with (S (fold_right (fun s n => (size_stmt s + n)%nat) 0%nat ss)) in Hsz.
+      change (wfb R (Code ss)) with (forallb (wfb_stmt R) ss) in Hwf.
+      change (wfb R (rimpl (Code ss))) with (forallb (wfb_stmt R) (map rimpl_stmt ss)).
+      rewrite forallb_forall in *. intros x Hx. apply in_map_iff in Hx. destruct Hx as (s & <- & Hs).
+      pose proof (size_stmt_in s ss Hs). apply IHs; [lia|apply Hwf; exact Hs].
+    + cbn [size] in Hsz. cbn [wfb CodeRoundtrip.rimpl] in *. apply IHt; [lia|exact Hwf].
+  - intros s Hsz Hwf. rewrite size_stmt_unfold in Hsz. rewrite rimpl_stmt_unfold. rewrite wfb_stmt_unfold in *.
+    destruct s as [e|x e|x e].
+    + apply IHt; [lia|exact Hwf].
+    + apply andb_prop in Hwf. destruct Hwf as [Hx He]. rewrite Hx, wfb_rhs, IHt by (auto; lia). reflexivity.
+    + apply andb_prop in Hwf. destruct Hwf as [Hx He]. rewrite Hx, wfb_rhs, IHt by (auto; lia). reflexivity.
+Qed.
+
+Lemma show_num_kind l : ((exists s, l = LNum s) \/ (exists s, l = LHex s)) -> exists s', show_lit l = LNum s'.
+Proof. intros [[s ->]|[s ->]]; [exact (Hkind (LNum s))|exact (Hkind (LHex s))]. Qed.
+
+Lemma unsigned_rimpl a : unsigned_num (rimpl a) = option_map show_lit (unsigned_num a).
+Proof.
+  induction a; cbn [CodeRoundtrip.rimpl unsigned_num option_map]; try reflexivity.
+  - destruct l as [s|s|s|s|s]; pose proof (Hkind (LNum s)) as K1; pose proof (Hkind (LHex s)) as K2; pose proof (Hkind (LStr s)) as K3;
+      pose proof (Hkind (LTrue s)) as K4; pose proof (Hkind (LFalse s)) as K5; cbn in *.
+    + destruct K1 as [s' E]. rewrite E. reflexivity.
+    + destruct K2 as [s' E]. rewrite E. reflexivity.
+    + destruct K3 as [s' E]. rewrite E. reflexivity.
+    + destruct K4 as [s' E]. rewrite E. reflexivity.
+    + destruct K5 as [s' E]. rewrite E. reflexivity.
+  - destruct (unsigned_num a) as [l|] eqn:Eu.
+    + destruct (show_num_kind l (unsigned_kind a l Eu)) as [s' Es].
+      destruct (text_eqb s sym_minus) eqn:Em.
+      * assert (text_eqb s sym_plus = false).
+        { apply text_eqb_eq in Em. subst. reflexivity. }
+        rewrite H. cbn [unsigned_num]. reflexivity.
+      * destruct (text_eqb s sym_plus) eqn:Ep.
+        -- cbn [unsigned_num option_map]. rewrite Es. reflexivity.
+        -- cbn [unsigned_num]. rewrite lower_sym_plus, Ep. reflexivity.
+    + cbn [unsigned_num]. rewrite lower_sym_plus. destruct (text_eqb s sym_plus); [exact IHa|reflexivity].
+  - exact IHa.
+Qed.
+
+Lemma postorder_rhs e : postorder (rhs e) = postorder e.
+Proof. unfold rhs. destruct (is_bin e); reflexivity. Qed.
+
+Theorem postorder_rimpl_main : forall n,
+  (forall t, (size t <= n)%nat -> postorder (rimpl t) = map (mapl_i show_lit) (postorder t)) /\
+  (forall s, (size_stmt s <= n)%nat -> postorder_stmt (rimpl_stmt s) = map (mapl_i show_lit) (postorder_stmt s)).
+Proof.
+  induction n as [|n [IHt IHs]].
+  { split; intros x Hsz; destruct x; cbn in Hsz; lia. }
+  split.
+  - intros t Hsz. destruct t as [l|v|nm|s a|j s l r|es|ss|a].
+    + reflexivity. + reflexivity.
+    + cbn [CodeRoundtrip.rimpl postorder map mapl_i]. rewrite lower_idem. reflexivity.
+    + cbn [size] in Hsz.
+      cbn [CodeRoundtrip.rimpl postorder].
+      destruct (unsigned_num a) as [l|] eqn:Eu.
+      * destruct (show_num_kind l (unsigned_kind a l Eu)) as [s' Es].
+        destruct (text_eqb s sym_minus) eqn:Em.
+        -- cbn [postorder unsigned_num]. rewrite Es. cbn [text_eqb sym_minus]. rewrite Z.eqb_refl. cbn [andb map mapl_i]. rewrite Es. reflexivity.
+        -- destruct (text_eqb s sym_plus) eqn:Ep.
+           ++ cbn [postorder map mapl_i]. reflexivity.
+           ++ cbn [postorder]. rewrite unsigned_rimpl, Eu. cbn [option_map]. rewrite lower_sym_minus, lower_sym_plus, Em, Ep, lower_idem, IHt by lia.
+              rewrite map_app. reflexivity.
+      * cbn [postorder]. rewrite unsigned_rimpl, Eu. cbn [option_map]. rewrite lower_idem, IHt by lia. rewrite map_app. reflexivity.
+    + cbn [size] in Hsz. cbn [CodeRoundtrip.rimpl postorder]. rewrite !IHt by lia. rewrite lower_idem, !map_app. reflexivity.
+    + change (size (Arr es)) with (S (fold_right (fun e n => (size e + n)%nat) 0%nat es)) in Hsz.
+      cbn [CodeRoundtrip.rimpl postorder]. rewrite map_app, map_length. cbn [map mapl_i]. f_equal.
+      assert (Hin: forall e, In e es -> (size e <= n)%nat) by (intros e He; pose proof (size_in e es He); lia). clear Hsz.
+      induction es as [|e es IH]; [reflexivity|]. cbn [map flat_map]. rewrite map_app, IHt by (apply Hin; left; reflexivity).
+      rewrite IH by (intros; apply Hin; right; assumption). reflexivity.
+    + change (size (Code ss)) with (S (fold_right (fun s n => (size_stmt s + n)%nat) 0%nat ss)) in Hsz.
+      change (postorder (rimpl (Code ss))) with [IPush (PCode (join [IEndStatement] (map postorder_stmt (map rimpl_stmt ss))))].
+      change (postorder (Code ss)) with [IPush (PCode (join [IEndStatement] (map postorder_stmt ss)))].
+      cbn [map mapl_i]. f_equal. f_equal. f_equal. rewrite map_join. cbn [map mapl_i]. f_equal.
+      rewrite !map_map. apply map_ext_in. intros s Hs. pose proof (size_stmt_in s ss Hs). apply IHs. lia.
+    + cbn [size] in Hsz. cbn [CodeRoundtrip.rimpl postorder]. apply IHt. lia.
+  - intros s Hsz. rewrite size_stmt_unfold in Hsz. rewrite rimpl_stmt_unfold. rewrite !postorder_stmt_unfold.
+    destruct s as [e|x e|x e].
+    + apply IHt. lia.
+    + rewrite postorder_rhs, IHt by lia. rewrite map_app. reflexivity.
+    + rewrite postorder_rhs, IHt by lia. rewrite map_app. reflexivity.
+Qed.
+End Final.
+
+(* Par nodes are invisible to the compiler *)
+Lemma unsigned_strip a : unsigned_num (strip a) = unsigned_num a.
+Proof.
+  induction a; cbn [strip unsigned_num]; try reflexivity; auto.
+  destruct (text_eqb s sym_plus); auto.
+Qed.
+Theorem postorder_strip_main : forall n,
+  (forall t, (size t <= n)%nat -> levels_ok t = true -> postorder (strip t) = postorder t) /\
+  (forall s, (size_stmt s <= n)%nat -> levels_ok_stmt s = true -> postorder_stmt (strip_stmt s) = postorder_stmt s).
+Proof.
+  induction n as [|n [IHt IHs]].
+  { split; intros x Hsz; destruct x; cbn in Hsz; lia. }
+  split.
+  - intros t Hsz Hl. destruct t as [l|v|nm|s a|j s l r|es|ss|a]; try reflexivity.
+    + cbn [size] in Hsz. cbn [levels_ok] in Hl. cbn [strip postorder]. rewrite unsigned_strip, IHt by (auto; lia). reflexivity.
+    + cbn [size] in Hsz. cbn [levels_ok] in Hl. apply andb_prop in Hl. destruct Hl as [Hl Hr]. apply andb_prop in Hl. destruct Hl as [_ Hl].
+      cbn [strip postorder]. rewrite !IHt by (auto; lia). reflexivity.
+    + change (size (Arr es)) with (S (fold_right (fun e n => (size e + n)%nat) 0%nat es)) in Hsz.
+      cbn [levels_ok] in Hl. rewrite forallb_forall in Hl.
+      cbn [strip postorder]. rewrite map_length. f_equal.
+      assert (Hin: forall e, In e es -> (size e <= n)%nat /\ levels_ok e = true) by (intros e He; pose proof (size_in e es He); split; [lia|auto]).
+      clear Hsz Hl.
+      induction es as [|e es IH]; [reflexivity|]. cbn [map flat_map].
+      destruct (Hin e (or_introl eq_refl)) as [H1 H2]. rewrite IHt by assumption.
+      rewrite IH by (intros; apply Hin; right; assumption). reflexivity.
+    + change (size (Code ss)) with (S (fold_right (fun s n => (size_stmt s + n)%nat) 0%nat ss)) in Hsz.
+      change (levels_ok (Code ss)) with (forallb levels_ok_stmt ss) in Hl. rewrite forallb_forall in Hl.
+      change (postorder (strip (Code ss))) with [IPush (PCode (join [IEndStatement] (map postorder_stmt (map strip_stmt ss))))].
+      change (postorder (Code ss)) with [IPush (PCode (join [IEndStatement] (map postorder_stmt ss)))].
+      f_equal. f_equal. f_equal. f_equal. rewrite map_map. apply map_ext_in. intros s Hs.
+      pose proof (size_stmt_in s ss Hs). apply IHs; [lia|auto].
+    + cbn [size] in Hsz. cbn [levels_ok] in Hl. cbn [strip postorder]. apply IHt; [lia|exact Hl].
+  - intros s Hsz Hl. rewrite size_stmt_unfold in Hsz. rewrite levels_ok_stmt_unfold in Hl. rewrite strip_stmt_unfold. rewrite !postorder_stmt_unfold.
+    destruct s as [e|x e|x e].
+    + apply IHt; [lia|exact Hl].
+    + apply andb_prop in Hl. destruct Hl as [Hx Hl]. destruct x; try discriminate. rewrite IHt by (auto; lia). reflexivity.
+    + rewrite IHt by (auto; lia). reflexivity.
+Qed.
+Lemma postorder_block_strip ss : forallb levels_ok_stmt ss = true -> postorder_block (map strip_stmt ss) = postorder_block ss.
+Proof.
+  intros Hl. unfold postorder_block. f_equal. rewrite map_map. apply map_ext_in. intros s Hs.
+  apply (proj2 (postorder_strip_main (size_stmt s))); [lia|]. rewrite forallb_forall in Hl. auto.
+Qed.
+
+Theorem wf_levels_main R : forall n,
+  (forall t, (size t <= n)%nat -> wfb R t = true -> levels_ok t = true) /\
+  (forall s, (size_stmt s <= n)%nat -> wfb_stmt R s = true -> levels_ok_stmt s = true).
+Proof.
+  induction n as [|n [IHt IHs]].
+  { split; intros x Hsz; destruct x; cbn in Hsz; lia. }
+  split.
+  - intros t Hsz Hwf. destruct t as [l|v|nm|s a|j s l r|es|ss|a]; try reflexivity.
+    + cbn [size] in Hsz. cbn [wfb levels_ok] in *. apply andb_prop in Hwf. apply IHt; [lia|apply Hwf].
+    + cbn [size] in Hsz. cbn [wfb levels_ok] in *. apply andb_prop in Hwf. destruct Hwf as [Hwf Hr]. apply andb_prop in Hwf. destruct Hwf as [Hwf Hl].
+      apply andb_prop in Hwf. destruct Hwf as [Hj _]. rewrite Hj, !IHt by (auto; lia). reflexivity.
+    + change (size (Arr es)) with (S (fold_right (fun e n => (size e + n)%nat) 0%nat es)) in Hsz.
+      cbn [wfb levels_ok] in *. rewrite forallb_forall in *. intros e He. pose proof (size_in e es He). apply IHt; [lia|apply Hwf; exact He].
+    + change (size (Code ss)) with (S (fold_right (fun s n => (size_stmt s + n)%nat) 0%nat ss)) in Hsz.
+      change (wfb R (Code ss)) with (forallb (wfb_stmt R) ss) in Hwf.
+      change (levels_ok (Code ss)) with (forallb levels_ok_stmt ss).
+      rewrite forallb_forall in *. intros s Hs. pose proof (size_stmt_in s ss Hs). apply IHs; [lia|apply Hwf; exact Hs].
+    + cbn [size] in Hsz. cbn [wfb levels_ok] in *. apply IHt; [lia|exact Hwf].
+  - intros s Hsz Hwf. rewrite size_stmt_unfold in Hsz. rewrite wfb_stmt_unfold in Hwf. rewrite levels_ok_stmt_unfold.
+    destruct s as [e|x e|x e].
+    + apply IHt; [lia|exact Hwf].
+    + apply andb_prop in Hwf. destruct Hwf as [Hx He]. destruct x; try discriminate. rewrite IHt by (auto; lia). reflexivity.
+    + apply andb_prop in Hwf. destruct Hwf as [Hx He]. apply IHt; [lia|exact He].
+Qed.
+
+(* ------------------------------------------------------------------ C06: code round-trips through str / compile *)
+(* For every registry and every well-formed block ss (the code of a code value), with c the compiled code:
+   str prints a text (reconstruct never runs off the instruction vector); if every token of that text
+   is spelled so that it reads as itself (operator and variable names are lexable, literals are printed as
+   literals of their kind - the number/string half of C06), then the text is `{ ... }` and compiles back,
+   for all sufficiently large fuel, to a single code value whose instructions are those of c with every
+   literal replaced by its printed form. *)
+Theorem code_roundtrip : forall (R:registry) (d:defects) (show_lit:lit -> lit) (ss:list stmt),
+  show_kind_ok show_lit -> wf_block R ss ->
+  exists ps, reconstruct show_lit (postorder_block ss) = Some ps /\
+    (toks_ok ps ->
+     exists f0, forall f, (f0 <= f)%nat ->
+       exists ss', parse_text d R f (pieces_text ps) = FOk [SExpr (Code ss')] /\
+                   compile_block ss' = Some (map (mapl_i show_lit) (postorder_block ss))).
+Proof.
+  intros R d show_lit ss Hkind Hwf.
+  set (c := postorder_block ss).
+  assert (Hsz: (size (Code ss) <= size (Code ss))%nat) by lia.
+  (* what reconstruct returns *)
+  assert (Hrec: reconstruct show_lit c = Some (rp_block show_lit ss)).
+  { unfold reconstruct.
+    pose proof (proj1 (recon_main show_lit (size (Code ss))) (Code ss) Hsz (S (S (S (2 * isize_list c)))) 0%nat false []) as H.
+    change (postorder (Code ss)) with [IPush (PCode c)] in H. cbn [rev app] in H.
+    rewrite recon_S in H.
+    assert (Hf: (2 * isize_list [IPush (PCode c)] <= S (S (S (2 * isize_list c))))%nat).
+    { unfold isize_list at 1. cbn [fold_right isize]. fold (isize_list c). lia. }
+    specialize (H Hf). destruct (recon_block show_lit (S (S (2 * isize_list c))) c) as [ps|]; [|discriminate].
+    injection H as ->. reflexivity. }
+  exists (rp_block show_lit ss). split; [exact Hrec|].
+  intros Hok.
+  assert (HwfC: wfb R (Code ss) = true) by exact Hwf.
+  assert (Hlev: levels_ok (Code ss) = true) by (apply (proj1 (wf_levels_main R (size (Code ss)))); auto).
+  (* the text lexes to the rendering of the printed tree *)
+  assert (Hlex: lex (pieces_text (rp_block show_lit ss)) = LexOk (print_raw layout_min [SExpr (rimpl show_lit (Code ss))])).
+  { rewrite lex_pieces.
+    - f_equal. change (rp_block show_lit ss) with (rp show_lit 0%nat false (Code ss)).
+      rewrite (proj1 (rp_toks_main show_lit (size (Code ss))) (Code ss) Hsz Hlev 0%nat false) by (cbn; lia).
+      unfold print_raw, pr_block. cbn [klev lay_lead lay_trail layout_min seps map app join flat_map]. rewrite !app_nil_r. reflexivity.
+    - apply PO_nil. change (rp_block show_lit ss) with (rp show_lit 0%nat false (Code ss)).
+      apply (proj1 (rp_PO_main show_lit (size (Code ss)))); [lia|exact I|exact Hok]. }
+  assert (Hwf': wf_block R [SExpr (rimpl show_lit (Code ss))]).
+  { unfold wf_block. cbn [forallb]. rewrite andb_true_r.
+    change (wfb_stmt R (SExpr (rimpl show_lit (Code ss)))) with (wfb R (rimpl show_lit (Code ss))).
+    apply (proj1 (wf_rimpl_main show_lit R (size (Code ss)))); auto. }
+  destruct (parse_print_block R d layout_min _ Hwf') as [f0 Hp].
+  exists f0. intros f Hf.
+  exists (map strip_stmt (map (rimpl_stmt show_lit) ss)). split.
+  - unfold parse_text. rewrite Hlex, print_raw_toks, (Hp f Hf). reflexivity.
+  - assert (Hl2: forallb levels_ok_stmt (map (rimpl_stmt show_lit) ss) = true).
+    { assert (H2: wfb R (rimpl show_lit (Code ss)) = true) by (apply (proj1 (wf_rimpl_main show_lit R (size (Code ss)))); auto).
+      apply (proj1 (wf_levels_main R (size (rimpl show_lit (Code ss))))) in H2; [|lia]. exact H2. }
+    rewrite compile_block_postorder, postorder_block_strip by exact Hl2. f_equal.
+    unfold c, postorder_block. rewrite map_join. cbn [map mapl_i]. f_equal. rewrite !map_map. apply map_ext. intros s.
+    apply (proj2 (postorder_rimpl_main show_lit Hkind (size_stmt s))). lia.
+Qed.
+
+(* ------------------------------------------------------------------ C06: the pretty printer *)
+(* The formatter as it stands never re-emits source parentheses: refuted by `(a + b) * c`.
+   The repaired formatter (proposed_fixes/C06-pretty-parentheses.diff, model `pretty`) is exercised by the
+   correspondence run and by the examples below; its general round-trip theorem is not proved here. *)
+Definition pp_R : registry := fun key =>
+  if text_eqb key [43%Z] then {| oi_bin := Some 6%nat; oi_un := true; oi_nul := false |}
+  else if text_eqb key [42%Z] then {| oi_bin := Some 7%nat; oi_un := false; oi_nul := false |}
+  else no_op.
+Definition pp_src : text := Eval compute in s2b "(a + b) * c"%string.
+
+Definition compile_text (R:registry) (f:nat) (s:text) : option (list instr) :=
+  match parse_text as_is R f s with FOk p => compile_block p | _ => None end.
+Definition pretty_then_compile (pp:list stmt -> list piece) (R:registry) (f:nat) (s:text) : option (list instr) :=
+  match parse_text as_is R f s with FOk p => compile_text R f (pieces_text (pp p)) | _ => None end.
+
+Lemma parse_text_mono d R f0 s p : parse_text d R f0 s = FOk p -> forall f, (f0 <= f)%nat -> parse_text d R f s = FOk p.
+Proof.
+  unfold parse_text. intros H f Hf. destruct (lex s); try discriminate.
+  destruct (parse_toks d f0 (map (classify R) ts)) eqn:E; try discriminate.
+  rewrite (ParseMono.mono_parse d f0 f _ ltac:(rewrite E; discriminate) Hf), E. exact H.
+Qed.
+
+(* there is a program whose pretty-printed text compiles to different instructions than the program *)
+Theorem pretty_roundtrip_refuted :
+  exists R s p p' c c',
+    (forall f, (100 <= f)%nat -> parse_text as_is R f s = FOk p) /\ compile_block p = Some c /\
+    (forall f, (100 <= f)%nat -> parse_text as_is R f (pieces_text (pretty_asis_program p)) = FOk p') /\ compile_block p' = Some c' /\
+    c <> c'.
+Proof.
+  exists pp_R, pp_src.
+  exists [SExpr (Bin 6 [42%Z] (Bin 5 [43%Z] (Var [97%Z]) (Var [98%Z])) (Var [99%Z]))].
+  exists [SExpr (Bin 5 [43%Z] (Var [97%Z]) (Bin 6 [42%Z] (Var [98%Z]) (Var [99%Z])))].
+  eexists. eexists.
+  split; [apply parse_text_mono; vm_compute; reflexivity|].
+  split; [vm_compute; reflexivity|].
+  split; [apply parse_text_mono; vm_compute; reflexivity|].
+  split; [vm_compute; reflexivity|].
+  discriminate.
+Qed.
+
+(* the repaired printer on the same program, and on a unary operand *)
+Example pretty_repaired_ex1 : pretty_then_compile pretty_program pp_R 100 pp_src = compile_text pp_R 100 pp_src.
+Proof. vm_compute. reflexivity. Qed.
+Example pretty_repaired_ex2 : pretty_then_compile pretty_program pp_R 100 (s2b "+ (a + b) * (c * (a * b))"%string)
+                              = compile_text pp_R 100 (s2b "+ (a + b) * (c * (a * b))"%string).
+Proof. vm_compute. reflexivity. Qed.
